@@ -284,7 +284,22 @@ func TestWriterClose(t *testing.T) {
 		w.WriteTimeoutMs = 1000
 		w.CloseWatchdogMs = 8000
 		c := writerCase{W: w, Sched: map[string][]sched.Action{}}
-		switch rapid.IntRange(0, 4).Draw(t, "stratum") {
+		switch rapid.IntRange(0, 5).Draw(t, "stratum") {
+		case 5:
+			// stampede: several callers make the very first submission to one partition at the same moment, then Close
+			n := rapid.IntRange(3, 8).Draw(t, "stampede")
+			proto := c.W.Callers[0][0]
+			proto.DelayUs, proto.CancelMs = 0, 0
+			if len(proto.Msgs) > 2 {
+				proto.Msgs = proto.Msgs[:2]
+			}
+			c.W.Callers = nil
+			for i := 0; i < n; i++ {
+				c.W.Callers = append(c.W.Callers, []wsim.Call{proto, proto})
+			}
+			c.W.Balancer = "first"
+			c.W.Faults = nil
+			c.W.CloseAfterUs = rapid.SampledFrom([]int{0, 0, 2000, 50000}).Draw(t, "closeAfterUs3")
 		case 4:
 			// calls blocked on a broker that stops answering, with contexts that end first
 			c.W.Async = false
